@@ -33,7 +33,7 @@ GenNext ==
                                  "removeatts", "copy", "rewrap", "observe", "observe", "observe", "mutate"} \cup OtherOps)} :
          Do(IF op \in {"addstr", "raddstr", "join"} THEN E(op, a, b, k, 0)
             ELSE IF op = "withatts" THEN E(op, a, b, 1 + (k % 3), 0)
-            ELSE IF op = "mul" THEN E(op, a, b, k - 1, 0)
+            ELSE IF op = "mul" THEN E(op, a, b, IF k = 1 THEN 0 - 1 - (n % 3) ELSE k - 2, 0)      \* -3..-1 (like str: empty), 0, 1, 2
             ELSE IF op = "splice" THEN E(op, a, b, Min2(n, m), Max2(n, m))
             ELSE IF op = "insert" \/ op = "setitem" THEN E(op, a, b, n, k)
             ELSE IF op = "mutate" THEN E(op, a, b, k, 0)
@@ -46,7 +46,7 @@ Next ==
   /\ \E a \in 1..Len(pool), b \in 1..Len(pool) :
        \/ \E op \in {"add", "append", "copy", "rewrap", "removeatts", "observe", "split", "ljust", "upper"} : Do(E(op, a, b, 0, 0))
        \/ \E k \in 1..3 : \E op \in {"addstr", "raddstr", "withatts", "join", "mutate", "setitem"} : Do(E(op, a, b, k, 0))
-       \/ \E k \in {0, 2} : Do(E("mul", a, b, k, 0))
+       \/ \E k \in {0 - 1, 0, 2} : Do(E("mul", a, b, k, 0))
        \/ \E n \in {0, 1}, m \in {1, VLen(pool[a])} : n <= m /\ (Do(E("slice", a, b, n, m)) \/ Do(E("splice", a, b, n, m)))
 Spec == Init /\ [][Next]_<<pool, hist>>
 
